@@ -181,7 +181,7 @@ def gen_endo(tu):
     names = locals_of(f)
     D = digits(4) + [None]          # None: index beyond that digit string (i >= wnaf_size)
     for (n0, n1) in ((0, 0), (3, 0), (0, 4), (5, 7), (7, 5), (6, 6)):
-        def run_base(path, n0=n0, n1=n1):
+        def run_base(path, n0=n0, n1=n1, alias=False):
             sizes = iter([n0, n1])
 
             @raw
@@ -190,8 +190,8 @@ def gen_endo(tu):
                 return None
             dom, I = mk(tu, path, obj_contracts={"WnafScalar<256, 4>::from_bigint": from_bigint})
             A = Lin.gen("A")
-            this = I.new_object("G1")
             a = I.new_object("G1")
+            this = a if alias else I.new_object("G1")         # p.multiply(p, k): the scheme code multiplies in place (C18)
             a.val = A
 
             def cut(I_, n, env):
@@ -210,8 +210,10 @@ def gen_endo(tu):
             c0.val, c1.val = Poly.var("c0"), Poly.var("c1")
             return run_cut(I, f, this, [a, c0, Cell(0), c1, Cell(1)])
         yield "base sizes=(%d,%d)" % (n0, n1), guarded(run_base)
+        if (n0, n1) in ((0, 0), (5, 7)):
+            yield "base sizes=(%d,%d) [out = a]" % (n0, n1), guarded(lambda p, rb=run_base: rb(p, alias=True))
 
-    def run_step(path):
+    def run_step(path, alias=False):
         @raw
         def from_bigint(I_, f_, this, args):
             this.f["wnaf_size"].v = 9
@@ -219,8 +221,8 @@ def gen_endo(tu):
         dom, I = mk(tu, path, obj_contracts={"WnafScalar<256, 4>::from_bigint": from_bigint})
         lam = dom.consts.value("g1_endomorphism_lambda")
         A = Lin.gen("A")
-        this = I.new_object("G1")
         a = I.new_object("G1")
+        this = a if alias else I.new_object("G1")
         a.val = A
         neg0 = I.path.decide(("arg", "c0_neg"), (0, 1))
         neg1 = I.path.decide(("arg", "c1_neg"), (0, 1))
@@ -270,23 +272,23 @@ def gen_frob(tu):
     names = locals_of(f)
     D = digits(2) + [None]
 
-    def setup(path):
+    def setup(path, alias=False):
         @raw
         def from_bigint(I_, f_, this, args):
             this.f["wnaf_size"].v = 9
             return None
         dom, I = mk(tu, path, obj_contracts={"WnafScalar<64, 2>::from_bigint": from_bigint}, drop_leaf=("PowersOfX",))
         A = Lin.gen("A")
-        this = I.new_object("G2")
         a = I.new_object("G2")
+        this = a if alias else I.new_object("G2")
         a.val = A
         sc = I.new_object("PowersOfX")
         for k, c in enumerate(sc.f["c"].items):
             c.val = Poly.var("c%d" % k)
         return dom, I, A, this, a, sc
 
-    def run_base(path):
-        dom, I, A, this, a, sc = setup(path)
+    def run_base(path, alias=False):
+        dom, I, A, this, a, sc = setup(path, alias)
 
         def cut(I_, n, env):
             init, cond, inc, body = for_parts(n)
@@ -303,6 +305,7 @@ def gen_frob(tu):
         I.loop_cuts[loop["id"]] = cut
         return run_cut(I, f, this, [a, sc])
     yield "base", guarded(run_base)
+    yield "base [out = a]", guarded(lambda p: run_base(p, True))
 
     def run_step(path):
         dom, I, A, this, a, sc = setup(path)
@@ -347,9 +350,9 @@ def units():
     for q, bits in (("wnaf_table_multiply<Projective<Fq>,128,4>", 128), ("wnaf_table_multiply<Projective<Fq>,256,4>", 256),
                     ("wnaf_table_multiply<Projective<Fq2>,256,4>", 256), ("wnaf_table_multiply<Projective<Fq2>,512,4>", 512)):
         us.append(ScenUnit(q + ": Horner step for every digit", P, gen_wnaf_table_multiply(q, bits, 4), targets=[q], contracts_used=lower))
-    us.append(ScenUnit("G1::multiply_endomorphism(c0,c1): interleaved Horner step for every digit pair", P, gen_endo, max_paths=20000,
+    us.append(ScenUnit("G1::multiply_endomorphism(c0,c1): interleaved Horner step for every digit pair", P + ["C18"], gen_endo, max_paths=20000,
                        targets=["G1::multiply_endomorphism(const G1 &, const BigInt<256> &, bool, const BigInt<256> &, bool)"], contracts_used=lower))
-    us.append(ScenUnit("G2::multiply_frobenius(PowersOfX): four-way Horner step for every digit tuple", P, gen_frob, max_paths=20000,
+    us.append(ScenUnit("G2::multiply_frobenius(PowersOfX): four-way Horner step for every digit tuple", P + ["C18"], gen_frob, max_paths=20000,
                        targets=["G2::multiply_frobenius(const G2 &, const PowersOfX &)"], contracts_used=lower))
     return us
 
